@@ -32,19 +32,17 @@ ASSUMPTIONS = ["the chain is irreducible, row-stochastic to rounding and reversi
                "results may come back as ndarray or as a scipy.sparse container; only values are compared"]
 SHARDS = {"quick": 4, "thorough": 16}
 
-F_ATOL, F_RTOL = 1e-12, 1e-6     # flux against the formula (observed: <= 4e-10 relative on stiff chains)
-ZERO = 1e-15                     # entries that must vanish (diagonal, into sources, out of sinks; observed 0)
-BAL_ATOL, BAL_RTOL = 1e-12, 1e-9  # balance sums (observed <= 2e-16)
-P_ATOL, P_RTOL = 1e-10, 1e-6     # observed <= 1e-12 abs
-NONNEG = 1e-10                   # rounding slack for 'non-negative' (same as the [0,1] slack of C07)
-SAME = 1e-12
+# Tolerances.  A flux entry pi_i (1-q_i) T_ij q_j inherits the committor error, which no double precision solve
+# keeps below ~eps*cond(I-Q); so every comparison of values derived from q allows REL + R.cond_slack(cond)
+# (= 1e3*eps*cond) relative to the q-independent factor pi_i*T_ij.  Balance sums are residual-like and get a
+# fixed tolerance.  R.within() records observed/tolerance; the largest ratio over 40 000 calibration cases
+# was < 1e-2 for every check.
+REL = 1e-9                       # base relative tolerance of values derived from the committors
+ZERO = 1e-15                     # entries that must vanish (diagonal, into sources, out of sinks; observed: exact 0)
+BAL_ATOL, BAL_RTOL = 1e-12, 1e-9  # balance sums (observed <= 1e-15)
+SAME = 1e-12                     # container agreement (observed: bit-identical)
 
-CAL = {}
-
-
-def _note(name, v):
-    if v > CAL.get(name, 0.0):
-        CAL[name] = float(v)
+W = R.within
 
 
 def _quiet(fn, *a, **k):
@@ -89,6 +87,19 @@ class Ctx:
         # no state is ever visited by a reactive trajectory (every intermediate state commits with certainty):
         # the reactive density pi*q+*q- is identically zero and no probability vector can be formed from it
         self.no_reactive_state = bool(np.max(self.pi * self.qf * self.qb) <= 0.0)
+        # relative accuracy that can be asked of anything computed from the committors of this case
+        self.qtol = REL + 2.0 * R.cond_slack(R.cond_free(self.T, self.src + self.snk))
+        self.edge = self.pi[:, None] * self.T          # q-independent factor of the flux through an edge
+        # when the library computes the stationary vector itself (dense eigen-decomposition) each component is
+        # only accurate to ~eps/gap in absolute terms (observed <= 2.4*eps/gap), gap = 1 - second eigenvalue
+        if case["pops"] == "given":
+            self.pi_tol = 0.0
+        else:
+            d = np.sqrt(self.pi)
+            S = (d[:, None] * self.T) / d[None, :]
+            lam = np.linalg.eigvalsh((S + S.T) / 2.0)
+            self.pi_tol = R.K_COND * R.EPS / max(1.0 - float(lam[-2]), R.EPS)
+        self.ftol = ZERO + self.qtol * self.edge + self.pi_tol * self.T      # per-edge flux tolerance
         self.case = case
 
     def args(self, container=None):
@@ -125,18 +136,14 @@ def _mat(x, n, what):
 
 def check_flux(cx, F):
     n = cx.n
-    d = np.abs(np.diag(F))
-    require(bool(np.all(d <= ZERO)), "reactive flux is not zero on the diagonal", diagonal=np.diag(F).tolist())
+    require(W("flux_diag", np.diag(F), ZERO), "reactive flux is not zero on the diagonal",
+            diagonal=np.diag(F).tolist())
     off = ~np.eye(n, dtype=bool)
-    err = np.abs(F - cx.flux)
-    _note("flux_abs", err[off].max())
-    nz = off & (cx.flux > 1e-9)
-    if nz.any():
-        _note("flux_rel", (err[nz] / cx.flux[nz]).max())
-    require(R.close(F[off], cx.flux[off], F_ATOL, F_RTOL),
+    tol = cx.ftol
+    require(W("flux_def", (F - cx.flux)[off], tol[off]),
             "reactive flux differs from pi_i * q-_i * T_ij * q+_j", got=F.tolist(), want=cx.flux.tolist(),
             pi=cx.pi.tolist(), q_forward=cx.qf.tolist(), q_backward=cx.qb.tolist())
-    require(bool(np.all(F >= -NONNEG * max(float(np.max(cx.flux)), 1e-300))), "negative reactive flux", got=F.tolist())
+    require(W("flux_nonneg", np.maximum(-F, 0.0)[off], tol[off]), "negative reactive flux", got=F.tolist())
 
 
 def run_flux(case):
@@ -154,15 +161,15 @@ def run_flux(case):
 def check_net(cx, N, F):
     require(bool(np.all(N >= 0)), "net flux has a negative entry", net=N.tolist())
     both = np.minimum(N, N.T)
+    # the positive part of x and of -x cannot both be non-zero: exact zero is the claim
     require(bool(np.all(both == 0)), "both directions of a pair carry net flux",
             pairs=np.argwhere(both != 0).tolist(), net=N.tolist())
     want = np.maximum(F - F.T, 0.0)
-    _note("net_vs_lib", R.maxerr(N, want))
-    require(R.close(N, want, ZERO, 1e-12), "net flux is not the positive part of (flux - flux^T) of reactive_fluxes",
+    require(W("net_vs_lib", N - want, ZERO + 1e-12 * np.maximum(np.abs(F), np.abs(F.T))),
+            "net flux is not the positive part of (flux - flux^T) of reactive_fluxes",
             net=N.tolist(), flux=F.tolist())
     ref = np.maximum(cx.flux - cx.flux.T, 0.0)
-    _note("net_vs_ref", R.maxerr(N, ref))
-    require(R.maxerr(N, ref) <= F_ATOL + F_RTOL * float(np.max(cx.flux)),
+    require(W("net_vs_ref", N - ref, cx.ftol + cx.ftol.T),
             "net flux differs from the positive part of the reference flux difference",
             net=N.tolist(), want=ref.tolist())
 
@@ -185,23 +192,24 @@ def check_conservation(cx, N):
     inflow, outflow = N.sum(axis=0), N.sum(axis=1)
     total_out = float(N[cx.src, :].sum())
     total_in = float(N[:, cx.snk].sum())
-    scale = max(total_out, total_in)
-    for i in cx.inter:
-        _note("balance", abs(inflow[i] - outflow[i]))
-        require(abs(inflow[i] - outflow[i]) <= BAL_ATOL + BAL_RTOL * max(inflow[i], outflow[i]),
-                "net flux into an intermediate state differs from net flux out of it", state=i,
-                inflow=float(inflow[i]), outflow=float(outflow[i]), net=N.tolist())
-    require(float(np.abs(N[:, cx.src]).max()) <= ZERO, "net flux flows into a source state",
+    if cx.inter:
+        ii = cx.inter
+        bad = np.abs(inflow[ii] - outflow[ii])
+        ok = W("balance", bad, BAL_ATOL + BAL_RTOL * np.maximum(inflow[ii], outflow[ii]))
+        require(ok, "net flux into an intermediate state differs from net flux out of it", states=ii,
+                inflow=inflow[ii].tolist(), outflow=outflow[ii].tolist(), net=N.tolist())
+    # exact zeros unless a committor is a rounding error outside [0, 1] (then of the order eps * edge weight)
+    pair = cx.ftol + cx.ftol.T
+    require(W("into_sources", N[:, cx.src], pair[:, cx.src]), "net flux flows into a source state",
             columns=N[:, cx.src].tolist(), sources=cx.src)
-    require(float(np.abs(N[cx.snk, :]).max()) <= ZERO, "net flux flows out of a sink state",
+    require(W("out_of_sinks", N[cx.snk, :], pair[cx.snk, :]), "net flux flows out of a sink state",
             rows=N[cx.snk, :].tolist(), sinks=cx.snk)
-    _note("total", abs(total_out - total_in))
-    require(abs(total_out - total_in) <= BAL_ATOL + BAL_RTOL * scale,
+    require(W("total", total_out - total_in, BAL_ATOL + BAL_RTOL * max(total_out, total_in)),
             "total outflow from the sources differs from total inflow to the sinks",
             out_of_sources=total_out, into_sinks=total_in)
     require(total_out > 0, "no net flux leaves the sources of an irreducible chain", net=N.tolist())
     ref_total = float(cx.flux[cx.src, :].sum())     # nothing flows back into the sources (q+ = 0 there)
-    require(abs(total_out - ref_total) <= F_ATOL + 1e-6 * ref_total,
+    require(W("total_ref", total_out - ref_total, float(cx.ftol[cx.src, :].sum())),
             "total reactive flux differs from the reference value", got=total_out, want=ref_total)
 
 
@@ -221,18 +229,19 @@ def check_pops(cx, P):
             type=type(P).__name__, shape=getattr(P, "shape", None))
     P = P.astype(np.float64)
     require(bool(np.all(np.isfinite(P))), "reactive populations not finite", got=P.tolist())
-    _note("pops_neg", max(0.0, -float(P.min())))
-    require(bool(np.all(P >= -NONNEG)), "negative reactive population", got=P.tolist())
-    _note("pops_sum", abs(P.sum() - 1.0))
-    require(abs(P.sum() - 1.0) <= 1e-12, "reactive populations do not sum to 1", total=float(P.sum()), got=P.tolist())
-    require(float(np.abs(P[cx.src]).max()) <= ZERO, "reactive population does not vanish on a source",
+    dens = cx.pi * cx.qf * cx.qb
+    S = float(dens.sum())
+    ref = dens / S
+    # d_i = pi_i q_i (1-q_i) is known to qtol*pi_i; after normalisation the error is at most 2*qtol/S
+    tol = 1e-12 + (2.0 * cx.qtol + (cx.n + 1) * cx.pi_tol) / S
+    require(W("pops_nonneg", np.maximum(-P, 0.0), tol), "negative reactive population", got=P.tolist())
+    require(W("pops_sum", P.sum() - 1.0, 1e-12), "reactive populations do not sum to 1", total=float(P.sum()),
+            got=P.tolist())
+    require(W("pops_src", P[cx.src], ZERO), "reactive population does not vanish on a source",
             got=P.tolist(), sources=cx.src)
-    require(float(np.abs(P[cx.snk]).max()) <= ZERO, "reactive population does not vanish on a sink",
+    require(W("pops_snk", P[cx.snk], ZERO), "reactive population does not vanish on a sink",
             got=P.tolist(), sinks=cx.snk)
-    ref = cx.pi * cx.qf * cx.qb
-    ref = ref / ref.sum()
-    _note("pops_ref", R.maxerr(P, ref))
-    require(R.close(P, ref, P_ATOL, P_RTOL), "reactive populations are not proportional to pi * q+ * q-",
+    require(W("pops_ref", P - ref, tol), "reactive populations are not proportional to pi * q+ * q-",
             got=P.tolist(), want=ref.tolist())
     return P
 
@@ -271,9 +280,11 @@ def run_containers(case):
             continue
         for nm, got, want in (("reactive_fluxes", F, base[0]), ("net_fluxes", N, base[1]),
                               ("reactive_populations", P, base[2])):
-            _note("same_" + nm, R.maxerr(got, want) if got.shape == want.shape else 1.0)
-            require(R.close(got, want, SAME, 1e-9), "%s differs between ndarray and %s input" % (nm, cont),
-                    dense=want.tolist(), other=got.tolist())
+            require(got.shape == want.shape, "%s: shape differs between ndarray and %s input" % (nm, cont))
+            tol = 2 * cx.ftol if got.ndim == 2 else (2.0 * cx.qtol + (cx.n + 1) * cx.pi_tol) / float(
+                (cx.pi * cx.qf * cx.qb).sum() or 1.0)
+            require(W("same_" + nm, got - want, SAME + tol),
+                    "%s differs between ndarray and %s input" % (nm, cont), dense=want.tolist(), other=got.tolist())
     return cx.info()
 
 
